@@ -185,6 +185,7 @@ func run(c *hk.Ctx) {
 		runSchedule(c, ctl, s, false)
 	}
 	resumeVariant = false
+	runFaultSchedules(c, ctl)
 	for _, s := range en2.Schedules {
 		runSchedule(c, ctl, s, false)
 	}
